@@ -116,7 +116,7 @@ func TestVerifC06(t *testing.T) {
 						var body []byte
 						body, err = ioutil.ReadAll(rdr)
 						if err == nil {
-							run.Violation("C06:b:truncated-index-accepted:"+rdName+":"+fr+":"+class,
+							run.Violation("C06:b:truncated-index-accepted:"+rdName+":"+fr,
 								fmt.Sprintf("%s delivered %d bytes and no error for an index response cut at byte %d of %d (%s, framing %s); tail of what was sent: %q",
 									rdName, len(body), k, len(F), class, fr, c06Tail(prefix)), c)
 						}
